@@ -264,12 +264,13 @@ def handleRf (r : Reduction) (sel : Option (List Nat)) (fields : List FMeta) (ro
       match rows.mapM f with
       | .error e => s!"dataerr {DType.str rt} {e.str}"
       | .ok vs => s!"ok {DType.str rt} " ++ (if vs.isEmpty then "-" else ";".intercalate (vs.map fmtVal))
-  -- the fields selected (independently of the model): by urn, each requested urn exactly once
+  -- the fields selected (independently of the model): by urn, each requested urn present (a urn may occur on more
+  -- than one available field — select shadowing, fix 5caebc0 — then all of them are reduced)
   let chosen : List (Nat × FMeta) := (List.zip (List.range fields.length) fields).filter (fun im =>
     match sel with | none => true | some urns => urns.contains im.2.urn)
   let selOk := match sel with
     | none => true
-    | some urns => urns.all (fun u => (fields.filter (fun f => f.urn == u)).length == 1)
+    | some urns => urns.all (fun u => (fields.filter (fun f => f.urn == u)).length ≥ 1)
   let valid := match chosen with
     | [] => false
     | c0 :: rest => selOk && c0.2.dtype.isNumeric && chosen.all (·.2.required) && rest.all (fun x => x.2.dtype == c0.2.dtype)
